@@ -18,7 +18,7 @@ for p in props:
             evidence_file='/verif/evidence/%s.json' % pid,
             replay_cmd_template='./check replay {path}',
             engine='lean-model+tie-harness',
-            level_claimed=dict(category='proof', text=t['text'], design_ref=t.get('design_ref', 'DESIGN.md §6 ' + pid)),
+            level_claimed=dict(category='proof', text=t['text'], design_ref=t.get('design_ref', 'DESIGN.md §4 (theorems of ' + pid + '), §5 (tie), §8 (seeded changes)')),
             level_note=t['note'],
             technique=t.get('technique', 'Lean 4 theorems about a hand-written model + transition correspondence check against the real code + oracle search'),
         ))
